@@ -200,9 +200,10 @@ CHECKS = {
         "assumptions": EXPLORATION_ASSUMPTIONS + ["linearizability is decided by porcupine v1.3.0 against the C12 relational model; data races by the Go race detector on the same generated histories (a race report with a goirc/state frame is a violation)",
                                                   "a returned value is private if scribbling over everything reachable from it leaves the whole observable tracker state equal to the model, later operations leave it equal to its deep copy, and it shares no pointer with related reads"],
         "legs": [
+            {"test": "TestC14_Big", "quick": {"checks": 400, "timeout": "15m"}, "thorough": {"checks": 5000, "shards": 2, "timeout": "60m"}},
             {"test": "TestC14_Snapshots", "quick": {"checks": 2000, "timeout": "15m"}, "thorough": {"checks": 20000, "shards": 8, "timeout": "60m"}},
-            {"test": "TestC14_Concurrent", "quick": {"checks": 500, "timeout": "15m"}, "thorough": {"checks": 5000, "shards": 4, "timeout": "60m"}},
-            {"test": "TestC14_Concurrent", "race": True, "quick": {"checks": 200, "timeout": "15m"}, "thorough": {"checks": 2000, "shards": 2, "timeout": "60m"}},
+            {"test": "TestC14_Concurrent", "quick": {"checks": 2500, "timeout": "15m"}, "thorough": {"checks": 5000, "shards": 4, "timeout": "60m"}},
+            {"test": "TestC14_Concurrent", "race": True, "quick": {"checks": 600, "timeout": "15m"}, "thorough": {"checks": 2000, "shards": 2, "timeout": "60m"}},
         ],
     },
     "C10": {
